@@ -38,6 +38,10 @@ def setup(rec, reach):
 
 def cases(shard, nshards, seed, tier):
     yield from work3d.cases(ID, shard, nshards, seed, tier, want_models=True)
+    for j, fn in enumerate(("tests/184D.cif", "tests/1E7K_1_C.cif", "tests/1ehz-assembly-1.cif")):
+        for nine in (False, True):
+            if (2 * j + nine) % nshards == shard:
+                yield {"family": "imported-annotation", "file": fn, "nine_fields": nine, "ops": []}
     # two Residue3D objects carrying the same identifiers (a nucleotide whose base atoms are listed after the rest of
     # its chain): contacts between the two halves are contacts of a residue with itself
     k = 0
@@ -59,9 +63,57 @@ def _call(s, model):
 
 
 def run_case(case, rec):
+    if case["family"] == "imported-annotation":
+        return _imported(case, rec)
     work3d.run_case(ID, case, rec, _call)
     if case["family"] == "corpus":
         _files(case, rec)
+
+
+def _imported(case, rec):
+    """An annotation imported from an external tool's listing of the structure's own interactions (unit ids in the short
+    and in the full nine-field form): every participant of the imported lists must be a residue of the structure, and
+    the lists must be as well-formed as the library's own."""
+    import os
+    import tempfile
+
+    from rnapolis import adapter, annotator
+
+    s = gen3d.load(case["file"])
+    try:
+        bi = annotator.extract_base_interactions(s)
+    except Exception as e:
+        rec.undecided("lists.participants-in-model", f"annotation raised {type(e).__name__}")
+        return
+    nine = case["nine_fields"]
+
+    def unit(r):
+        a = r.auth
+        if nine:
+            return "|".join(["XXXX", "1", a.chain, a.name, str(a.number), "", "", a.icode or "", "1_555"])
+        return "|".join(["XXXX", "1", a.chain, a.name, str(a.number)] + (["", "", a.icode] if a.icode else []))
+
+    rows = [f"{unit(p.nt1)}\t{p.lw.value}\t{unit(p.nt2)}\t0" for p in bi.basePairs if p.nt1.auth is not None and p.nt2.auth is not None]
+    rows += [f"{unit(p.nt1)}\t{ {'upward': 's35', 'downward': 's53', 'inward': 's33', 'outward': 's55'}[p.topology.value] }\t{unit(p.nt2)}\t0" for p in bi.stackings
+             if p.nt1.auth is not None and p.nt2.auth is not None]
+    if not rows:
+        rec.skip("lists.participants-in-model", "nothing to list")
+        return
+    fd, path = tempfile.mkstemp(suffix=".txt", prefix="vmon-c11-")
+    with os.fdopen(fd, "w") as fh:
+        fh.write("\n".join(rows) + "\n")
+    ctx = {"file": case["file"], "imported": "FR3D listing of the structure's own interactions", "nine-field-unit-ids": nine}
+    try:
+        got = adapter.parse_fr3d_output(path)
+    except Exception as e:
+        rec.violation("lists.no-crash", {"ctx": ctx, "exception": repr(e)[:200]}, mechanism=f"crash:{type(e).__name__}")
+        return
+    finally:
+        os.remove(path)
+    rec.mark_nontrivial(True)
+    lost = [x for x in list(got.basePairs) + list(got.stackings) for r in (x.nt1, x.nt2) if s.find_residue(r.label, r.auth) is None]
+    rec.check("lists.participants-in-model", not lost and len(got.basePairs) + len(got.stackings) == len(rows),
+              lambda: {"ctx": ctx, "not-residues-of-the-structure": [repr(x.nt1) for x in lost[:3]], "imported": len(got.basePairs) + len(got.stackings), "listed": len(rows)})
 
 
 def _files(case, rec):
